@@ -2,6 +2,10 @@
 import subprocess, shutil, re, os, sys, json, glob
 SRC='/repo/tools/god/util/'; DST='/tmp/verif-mut-C20/tools/god/util/'
 F='format/format.go'; S='stringx/string.go'; C='../config/config.go'
+def MEMO(key):
+    return [("func FileNamingFormat(format, content string) (string, error) {\n",
+             "var verifMemo = map[string]string{}\n\nfunc FileNamingFormat(format, content string) (res string, rerr error) {\n\tkey := " + key +
+             "\n\tif m, ok := verifMemo[key]; ok {\n\t\treturn m, nil\n\t}\n\tdefer func() {\n\t\tif rerr == nil {\n\t\t\tverifMemo[key] = res\n\t\t}\n\t}()\n")]
 M=[
  ("M1 indexGo > indexDesigner -> >= (DESIGN)", F, [("indexGo > indexDesigner","indexGo >= indexDesigner")]),
  ("M1b order check dropped", F, [("|| indexGo > indexDesigner","")]),
@@ -42,6 +46,10 @@ M=[
  ("A1 doFormat assembles the result with fmt.Sprintf(before+\"%s\"+after, joined)", F, [("return format.before + joined + format.after, nil",'return fmt.Sprintf(format.before+"%s"+format.after, joined), nil')]),
  ("A2 words joined through regexp ReplaceAllString (expands $ in through)", F, [("joined := strings.Join(join, format.through)",'joined := regexp.MustCompile("\\x00").ReplaceAllString(strings.Join(join, "\\x00"), format.through)'),('import (\n\t"bytes"','import (\n\t"regexp"\n\t"bytes"')]),
  ("A2b words joined through regexp ReplaceAllString on a private marker (only $ in through matters)", F, [("joined := strings.Join(join, format.through)",'joined := regexp.MustCompile("\\x1f\\x1e").ReplaceAllString(strings.Join(join, "\\x1f\\x1e"), format.through)'),('import (\n\t"bytes"','import (\n\t"regexp"\n\t"bytes"')]),
+ ("K1 results memoised under template+\":\"+identifier (seeded/C20/result-memo-ambiguous-key)", F, "/verif/seeded/C20/result-memo-ambiguous-key/patch.diff"),
+ ("K2 results memoised under template+identifier (no separator)", F, MEMO('format + content')),
+ ("K3 results memoised under strings.ToLower(template)+NUL+identifier", F, MEMO('strings.ToLower(format) + "\\x00" + content')),
+ ("K4 results memoised under template+NUL+strings.TrimSpace(identifier)", F, MEMO('format + "\\x00" + strings.TrimSpace(content)')),
  ("H1 every 50000th call of split returns the previous call's words (long-lived process state)", F, [("func split(content string) ([]string, error) {","var verifCalls int\nvar verifLast []string\n\nfunc split(content string) (res []string, err error) {\n\tverifCalls++\n\tif verifCalls%50000 == 0 {\n\t\treturn verifLast, nil\n\t}\n\tdefer func() { verifLast = res }()")]),
  ("T1 asciiUpper copies the template into a fixed 4096-byte array", F, [("\tb := []byte(s)\n\tfor i, c := range b {","\tvar arr [4096]byte\n\tb := arr[:copy(arr[:], s)]\n\tfor i, c := range b {")]),
  ("G1 NewConfig returns one shared package-level Config", C, [("\tcfg := &Config{NamingFormat: format}","\tcfg := &verifShared\n\tcfg.NamingFormat = format"),("func validate(","var verifShared Config\n\nfunc validate(")]),
